@@ -3,6 +3,7 @@
 usage: python -m vf.det_worker <calls.json> <out.json> <mode> <shuffle_seed>
   mode = plain | shuffled (first serve a seed-shuffled permutation of the same calls, discard, clean up, then record in order)
        | gather (all tool calls of the batch as tasks of one event loop)
+       | threads (all calls, in a seed-shuffled order, from four OS threads sharing the tool instances; GIL switch interval 1 us)
 The process configuration (PYTHONHASHSEED, cwd, LANG/LC_ALL) is set by the parent.
 """
 import asyncio
@@ -111,6 +112,27 @@ def main():
                 results.append("raised:" + type(r).__name__ + ":" + str(r)[:300] if isinstance(r, BaseException) else ser(r))
             else:
                 results.append(run_one(c))
+    elif mode == "threads":
+        # every call from one of four OS threads sharing the tool instances, with a very short GIL switch interval
+        from concurrent.futures import ThreadPoolExecutor
+
+        sys.setswitchinterval(1e-6)
+        # calls on one target path form a history (create, preview, edit): they stay in order, in one thread
+        jobs: dict = {}
+        for i, c in enumerate(calls):
+            tp = c.get("args", {}).get("target_path") if "tool" in c else None
+            jobs.setdefault(("path", tp) if tp else ("call", i), []).append(i)
+        order = list(jobs.values())
+        random.Random(sseed).shuffle(order)
+        got = {}
+
+        def job(idxs):
+            return [(i, run_one(calls[i])) for i in idxs]
+
+        with ThreadPoolExecutor(4) as ex:
+            for pairs in ex.map(job, order):
+                got.update(pairs)
+        results = [got[i] for i in range(len(calls))]
     else:
         for c in calls:
             results.append(run_one(c))
